@@ -733,3 +733,137 @@ Proof.
   - constructor.
 Qed.
 End Bridge.
+
+(* ================================================================ one constructed type *)
+Section Node.
+Variable m : module.
+
+Lemma fetch_path_indep : forall fuel p p' k, fetch m fuel [] p k = fetch m fuel [] p' k.
+Proof.
+  destruct fuel as [|f]; intros p p' k; destruct k as [|[[c n]|] t]; try reflexivity;
+    destruct t; reflexivity.
+Qed.
+
+(* reference r, used untagged as a component type, is harmless for the C's
+   argument swap: either its outermost tag can be fetched, or it has no tags *)
+Definition ref_transparent (r : nat) : Prop :=
+  fetch m (fetch_fuel m) [] [] (NTy None (TRef r)) = None -> forall x, ~ first_tag m None (TRef r) x.
+
+Definition comps_transparent (comps : list (cinfo * ty)) : Prop :=
+  forall c r, In (c, TRef r) comps -> ref_transparent r.
+
+Lemma mk_nodes_transparent : forall auto p l pos num v,
+  comps_transparent l -> In v (mk_nodes auto p pos num l) -> transparent m v.
+Proof.
+  intros auto p l pos num v Hc Hin r K Ro.
+  apply mk_nodes_In in Hin. destruct Hin as [i [c [t [H1 [H2 _]]]]].
+  rewrite K in H2. inversion H2; subst.
+  apply nth_error_In in H1. apply (Hc c r H1).
+  unfold out in Ro. rewrite K in Ro. rewrite <- Ro. apply fetch_path_indep.
+Qed.
+
+Lemma members_transparent : forall p r1 ext r2 v,
+  comps_transparent (r1 ++ r2 ++ adds_of ext) ->
+  In v (members (m_tagging m) p r1 ext r2) -> transparent m v.
+Proof.
+  intros p r1 ext r2 v Hc Hin. unfold members in Hin.
+  apply in_app_or in Hin. destruct Hin as [Hin|Hin].
+  - eapply mk_nodes_transparent; [|exact Hin].
+    intros c r H. apply (Hc c r). unfold root_of in H. rewrite app_assoc. apply in_or_app. left. exact H.
+  - destruct ext as [a|]; [|contradiction]. destruct Hin as [E|Hin].
+    + subst v. intros r K. discriminate.
+    + eapply mk_nodes_transparent; [|exact Hin].
+      intros c r H. apply (Hc c r). simpl. apply in_or_app. right. apply in_or_app. right. exact H.
+Qed.
+
+Lemma run_pair_In : forall is_seq l v nv, run_pair is_seq l v nv -> In v l /\ In nv l.
+Proof.
+  intros is_seq l v nv [l1 [rest [E [_ [pre [post [E2 _]]]]]]]. subst. split.
+  - apply in_or_app. right. left. reflexivity.
+  - apply in_or_app. right. right. apply in_or_app. right. left. reflexivity.
+Qed.
+
+Definition tags_clause (k : kind) (r1 : list (cinfo * ty)) (ext : option (list (cinfo * ty))) (r2 : list (cinfo * ty)) : Prop :=
+  let adds := adds_of ext in
+  let auto := sp_auto m r1 adds r2 in
+  let root_e := entries m auto 0 (r1 ++ r2) in
+  let adds_e := entries m auto (length (r1 ++ r2)) adds in
+  let mk := match ext with Some _ => [marker_entry] | None => [] end in
+  match k with
+  | KSeq => runs_ok (root_e ++ mk) /\ runs_ok adds_e
+  | _ => pairwise_disjoint (root_e ++ mk ++ adds_e)
+  end.
+
+Definition seq_flag (k : kind) : bool := match k with KSeq => true | _ => false end.
+
+Lemma pairs_ok_nil : forall is_seq, pairs_ok is_seq [].
+Proof. intros is_seq E1 a pre b post Eq. destruct E1; discriminate. Qed.
+
+(* the pair loop finds nothing  =>  the type's tags are distinct as specified *)
+Lemma cons_tags_sound : forall fuel p k r1 ext r2,
+  comps_transparent (r1 ++ r2 ++ adds_of ext) ->
+  scan_all m fuel (seq_flag k) (members (m_tagging m) p r1 ext r2) = Done false ->
+  tags_clause k r1 ext r2.
+Proof.
+  intros fuel p k r1 ext r2 Hc H.
+  assert (Dis : forall is_seq L, (forall v, In v L -> transparent m v) ->
+            scan_all m fuel is_seq L = Done false ->
+            forall v nv, run_pair is_seq L v nv -> disjoint (ntags m (n_kind v)) (ntags m (n_kind nv))).
+  { intros is_seq L TL HL v nv R. pose proof (run_pair_In _ _ _ _ R) as [_ Inv].
+    eapply compare_false_disjoint; [apply TL; exact Inv|].
+    eapply scan_all_false; eassumption. }
+  assert (TM : forall v, In v (members (m_tagging m) p r1 ext r2) -> transparent m v)
+    by (intros v Hin; eapply members_transparent; eassumption).
+  pose proof (members_entries m p r1 ext r2) as F. cbv zeta in F.
+  unfold tags_clause. cbv zeta.
+  destruct k; simpl seq_flag in H.
+  - (* SEQUENCE *)
+    unfold members in *. rewrite auto_eq in *. unfold root_of in *.
+    destruct ext as [a|]; simpl adds_of in *.
+    + rewrite scan_all_split in H by reflexivity.
+      apply res_or_Done_false in H. destruct H as [HA HB].
+      split; apply runs_ok_pairs.
+      * eapply bridge_sound;
+          [apply Forall2_app; [apply mk_nodes_entries | constructor; [apply marker_corr | constructor]]|].
+        apply Dis; [|exact HA].
+        intros v Hin. apply TM. apply in_app_or in Hin. apply in_or_app.
+        destruct Hin as [Hin|[E|[]]]; [left; exact Hin | right; left; exact E].
+      * eapply bridge_sound; [apply mk_nodes_entries|].
+        apply Dis; [|exact HB].
+        intros v Hin. apply TM. apply in_or_app. right. right. exact Hin.
+    + simpl in F. rewrite !app_nil_r in *.
+      split; apply runs_ok_pairs.
+      * eapply bridge_sound; [exact F|].
+        apply Dis; [exact TM | exact H].
+      * apply pairs_ok_nil.
+  - apply pairwise_pairs. eapply bridge_sound; [exact F|]. apply Dis; [exact TM | exact H].
+  - apply pairwise_pairs. eapply bridge_sound; [exact F|]. apply Dis; [exact TM | exact H].
+Qed.
+
+(* the type's tags are distinct as specified  =>  the pair loop reports no clash *)
+Lemma cons_tags_complete : forall fuel p k r1 ext r2,
+  tags_clause k r1 ext r2 ->
+  scan_all m fuel (seq_flag k) (members (m_tagging m) p r1 ext r2) <> Done true.
+Proof.
+  intros fuel p k r1 ext r2 Hs H.
+  assert (Con : forall is_seq L E, Forall2 (corr m) L E -> pairs_ok is_seq E ->
+            scan_all m fuel is_seq L = Done true -> False).
+  { intros is_seq L E F P HL. apply scan_all_true in HL. destruct HL as [v [nv [R Hc]]].
+    apply compare_true_common in Hc. destruct Hc as [x [Ha Hb]].
+    exact (bridge_complete m is_seq L E F P v nv R x Ha Hb). }
+  pose proof (members_entries m p r1 ext r2) as F. cbv zeta in F.
+  unfold tags_clause in Hs. cbv zeta in Hs.
+  destruct k; simpl seq_flag in H.
+  - destruct Hs as [HsA HsB]. apply runs_ok_pairs in HsA. apply runs_ok_pairs in HsB.
+    unfold members in *. rewrite auto_eq in *. unfold root_of in *.
+    destruct ext as [a|]; simpl adds_of in *.
+    + rewrite scan_all_split in H by reflexivity.
+      apply res_or_Done_true in H. destruct H as [H|H].
+      * eapply Con; [|exact HsA|exact H].
+        apply Forall2_app; [apply mk_nodes_entries | constructor; [apply marker_corr | constructor]].
+      * eapply Con; [apply mk_nodes_entries | exact HsB | exact H].
+    + simpl in F. rewrite !app_nil_r in *. eapply Con; [exact F|exact HsA|exact H].
+  - apply pairwise_pairs in Hs. eapply Con; eassumption.
+  - apply pairwise_pairs in Hs. eapply Con; eassumption.
+Qed.
+End Node.
